@@ -9,7 +9,7 @@ import (
 // Deliberately boring: no index, no bisection, linear scans.
 type Model struct {
 	Objs map[string]*Rec
-	// UniqueP: the configuration declares U16 unique (custom schema)
+	// UniqueP: the custom schema of the configuration declares P (otherwise unindexed) and S (plain string, no case constraint) unique
 	UniqueP bool
 }
 
@@ -40,7 +40,7 @@ func (m *Model) conflict(uuid string, r *Rec) bool {
 		if u == uuid {
 			continue
 		}
-		if o.K == r.K || o.N == r.N || (m.UniqueP && o.P == r.P) {
+		if o.K == r.K || o.N == r.N || (m.UniqueP && (o.P == r.P || o.S == r.S)) {
 			return true
 		}
 	}
@@ -49,7 +49,7 @@ func (m *Model) conflict(uuid string, r *Rec) bool {
 
 // clash tells whether two canonical records may not be stored together.
 func (m *Model) clash(a, b *Rec) bool {
-	return a.K == b.K || a.N == b.N || (m.UniqueP && a.P == b.P)
+	return a.K == b.K || a.N == b.N || (m.UniqueP && (a.P == b.P || a.S == b.S))
 }
 
 // expectSingle returns the expected outcome class of InsertOrUpdate(r) where r
